@@ -35,6 +35,7 @@ type c05World struct {
 	umask0 bool
 	p      *pair
 	recent int64
+	before map[string]c05Ent // the twin tree before the step that is being judged (for classify)
 }
 
 type c05Op struct {
@@ -119,6 +120,9 @@ func (w *c05World) snapshot(side, root string) map[string]c05Ent {
 				en.typ = "symlink"
 				t, _ := os.Readlink(p)
 				en.target = c05AbsNorm(t, root)
+				if st, ok := fi.Sys().(*syscall.Stat_t); ok {
+					en.nlink = uint64(st.Nlink) // (os.Link on a link makes a second name of the link itself)
+				}
 			default:
 				en.typ = "other"
 			}
@@ -936,6 +940,10 @@ func (w *c05World) classify(op *c05Op, a, b c05Res, pre1 string, kind string, ki
 		return "statvfs-workdir"
 	case op.name == "removeall" && pre1 == "symlink":
 		return "removeall-symlink"
+	case op.name == "removeall" && pre1 == "dir" && kind == "category" && a.cat == "notexist" && b.cat == "ok" && c05ThroughOwnLink(w.before, op.p1):
+		// F30: the directory is reached through a symbolic link that lies INSIDE it; the Client removes by path, the link goes, and
+		// the rest of the paths no longer resolve (os.RemoveAll works on directory descriptors)
+		return "removeall-own-link"
 	case op.name == "symlink" && w.wd && !strings.HasPrefix(op.target, "$R") && (onlyTarget || (kind == "category" && op.target == "" && sens == "")):
 		return "symlink-target-workdir"
 	case op.name == "rmdir" && (pre1 == "file" || pre1 == "symlink") && sens == "":
@@ -976,6 +984,55 @@ func (w *c05World) classify(op *c05Op, a, b c05Res, pre1 string, kind string, ki
 		return "create-mode"
 	}
 	return kind
+}
+
+// c05ThroughOwnLink: resolving rel on the snapshot passes through a symbolic link that is located inside the directory the
+// path finally names.
+func c05ThroughOwnLink(snap map[string]c05Ent, rel string) bool {
+	if snap == nil {
+		return false
+	}
+	cur := []string{"r"}
+	var links []string
+	todo := strings.Split(path.Clean(rel), "/")
+	for steps := 0; len(todo) > 0 && steps < 200; steps++ {
+		c := todo[0]
+		todo = todo[1:]
+		switch c {
+		case "", ".":
+			continue
+		case "..":
+			if len(cur) > 1 {
+				cur = cur[:len(cur)-1]
+			}
+			continue
+		}
+		key := strings.Join(append(append([]string{}, cur...), c), "/")
+		e, ok := snap[key]
+		if !ok {
+			return false
+		}
+		if e.typ == "symlink" {
+			links = append(links, key)
+			t := e.target
+			if strings.HasPrefix(t, "$R") {
+				cur = []string{"r"}
+				t = strings.TrimPrefix(t, "$R")
+			} else if strings.HasPrefix(t, "/") {
+				return false // leaves the tree
+			}
+			todo = append(strings.Split(t, "/"), todo...)
+			continue
+		}
+		cur = append(cur, c)
+	}
+	final := strings.Join(cur, "/")
+	for _, l := range links {
+		if strings.HasPrefix(l, final+"/") {
+			return true
+		}
+	}
+	return false
 }
 
 // ---------------------------------------------------------------- driver
@@ -1099,6 +1156,7 @@ func (w *c05World) runSeq(s int, nodes []c05Node, nsteps int, next func(int) *c0
 		for i := 0; i < nsteps; i++ {
 			op := next(i)
 			beforeA, beforeB := prevA, prevB
+			w.before = beforeB
 			pre1 := "none"
 			if pp := op.prePath(); pp != "" {
 				t := strings.TrimRight(pp, "/")
@@ -1256,8 +1314,8 @@ func (w *c05World) emitFs(kind string, seq, step int, op *c05Op, before, after m
 	}
 	if op.name == "rename" || op.name == "posixrename" {
 		// two names of one file (hard links): rename(2) does nothing and reports success; the model has no file identity
-		if a, ok := before["r/"+op.p1]; ok && a.typ == "file" && a.nlink >= 2 {
-			if b, ok := before["r/"+op.p2]; ok && b.typ == "file" && b.nlink >= 2 && op.p1 != op.p2 {
+		if a, ok := before["r/"+op.p1]; ok && a.typ != "dir" && a.nlink >= 2 {
+			if b, ok := before["r/"+op.p2]; ok && b.typ == a.typ && b.nlink >= 2 && op.p1 != op.p2 {
 				c.Stat(kind + "_rename_between_possible_hard_links_not_compared")
 				return
 			}
@@ -1290,15 +1348,21 @@ func c05KindOf(item string) (name, kind string) {
 	if len(f) < 2 || len(f[1]) == 0 {
 		return item, "?"
 	}
-	switch f[1][0] {
-	case 'd':
+	// os.FileMode.String(): type and special-bit letters (d L D p S c t u g ...) in front of nine permission characters
+	pre := f[1]
+	if len(pre) >= 9 {
+		pre = pre[:len(pre)-9]
+	}
+	switch {
+	case strings.ContainsAny(pre, "DpSc?"):
+		return f[0], "?"
+	case strings.Contains(pre, "d"):
 		return f[0], "d"
-	case 'L':
+	case strings.Contains(pre, "L"):
 		return f[0], "l"
-	case '-':
+	default:
 		return f[0], "f"
 	}
-	return f[0], "?"
 }
 
 func (w *c05World) emitFsObs(kind string, seq, step int, op *c05Op, before map[string]c05Ent, cat, val string) {
